@@ -59,22 +59,22 @@ const (
 // c19Case is one input: a console geometry and a list of calls.
 // A call is [0,ch,fg,bg,x,y] (Write), [1,x,y,w,h,fg,bg] (Fill) or [2,dir,n] (Scroll).
 type c19Case struct {
-	ID    int        `json:"id"`
-	Cons  string     `json:"cons"` // "fb" | "vga"
-	W     uint32     `json:"w"`
-	H     uint32     `json:"h"`
-	Pitch uint32     `json:"pitch"`
-	Bpp   uint32     `json:"bpp"`
-	Ci    [6]uint8   `json:"ci"` // red pos,size, green pos,size, blue pos,size
-	Gw    uint32     `json:"gw"`
-	Gh    uint32     `json:"gh"`
-	OffY  uint32     `json:"offY"`  // logo height
-	Font  string     `json:"font"`  // shipped font name, "" = synthetic gw x gh font from the seed
-	Align uint8      `json:"align"` // logo alignment
-	Seed  int64      `json:"seed"`  // buffer content, palette, synthetic font, logo pixels
-	Reinit int       `json:"reinit"` // start a fresh case (new init event) every so many calls; 0 = never
-	Chk   int        `json:"chk"`   // full checkpoint every so many calls (and at the end); 0 = only if small
-	Calls [][]uint64 `json:"calls"`
+	ID     int        `json:"id"`
+	Cons   string     `json:"cons"` // "fb" | "vga"
+	W      uint32     `json:"w"`
+	H      uint32     `json:"h"`
+	Pitch  uint32     `json:"pitch"`
+	Bpp    uint32     `json:"bpp"`
+	Ci     [6]uint8   `json:"ci"` // red pos,size, green pos,size, blue pos,size
+	Gw     uint32     `json:"gw"`
+	Gh     uint32     `json:"gh"`
+	OffY   uint32     `json:"offY"`   // logo height
+	Font   string     `json:"font"`   // shipped font name, "" = synthetic gw x gh font from the seed
+	Align  uint8      `json:"align"`  // logo alignment
+	Seed   int64      `json:"seed"`   // buffer content, palette, synthetic font, logo pixels
+	Reinit int        `json:"reinit"` // start a fresh case (new init event) every so many calls; 0 = never
+	Chk    int        `json:"chk"`    // full checkpoint every so many calls (and at the end); 0 = only if small
+	Calls  [][]uint64 `json:"calls"`
 }
 
 // ---------------------------------------------------------------- event writer
@@ -84,7 +84,13 @@ type c19Out struct {
 	b []byte
 }
 
-func (o *c19Out) str(k, v string) { o.b = append(o.b, '"'); o.b = append(o.b, k...); o.b = append(o.b, `":"`...); o.b = append(o.b, v...); o.b = append(o.b, `",`...) }
+func (o *c19Out) str(k, v string) {
+	o.b = append(o.b, '"')
+	o.b = append(o.b, k...)
+	o.b = append(o.b, `":"`...)
+	o.b = append(o.b, v...)
+	o.b = append(o.b, `",`...)
+}
 func (o *c19Out) num(k string, v uint64) {
 	o.b = append(o.b, '"')
 	o.b = append(o.b, k...)
@@ -103,7 +109,11 @@ func (o *c19Out) word(k string, v uint64) {
 	o.b = strconv.AppendUint(o.b, v&0xffff, 10)
 	o.b = append(o.b, `],`...)
 }
-func (o *c19Out) key(k string) { o.b = append(o.b, '"'); o.b = append(o.b, k...); o.b = append(o.b, `":`...) }
+func (o *c19Out) key(k string) {
+	o.b = append(o.b, '"')
+	o.b = append(o.b, k...)
+	o.b = append(o.b, `":`...)
+}
 func (o *c19Out) ints(vals []uint16) {
 	o.b = append(o.b, '[')
 	for i, v := range vals {
@@ -548,8 +558,11 @@ func c19RandomCase(id int, rng *rand.Rand, nCalls int, hi32 bool) *c19Case {
 	if rng.Intn(5) == 0 {
 		c.Cons = "vga"
 		c.W, c.H = uint32(1+rng.Intn(80)), uint32(1+rng.Intn(25))
-		if rng.Intn(3) == 0 {
+		switch rng.Intn(4) {
+		case 0:
 			c.W, c.H = uint32(1+rng.Intn(5)), uint32(1+rng.Intn(4))
+		case 1:
+			c.W, c.H = 80, 25 // the real VGA mode 3 grid
 		}
 		c.Pitch, c.Gw, c.Gh = c.W, 1, 1
 		cols, rows = c.W, c.H
